@@ -225,3 +225,31 @@ func Max(a, b *big.Int) *big.Int {
 	}
 	return b
 }
+
+// ByteClass returns the index of the first class containing b, or len(classes) when
+// none does. Each class is a set of bytes written as single bytes and lo-hi ranges
+// (a '-' first or last is literal). Under the engine this is one n-way decision.
+func ByteClass(b byte, classes []string) int {
+	for i, c := range classes {
+		if inClass(b, c) {
+			return i
+		}
+	}
+	return len(classes)
+}
+
+func inClass(b byte, c string) bool {
+	for i := 0; i < len(c); i++ {
+		if i+2 < len(c) && c[i+1] == '-' {
+			if b >= c[i] && b <= c[i+2] {
+				return true
+			}
+			i += 2
+			continue
+		}
+		if c[i] == b {
+			return true
+		}
+	}
+	return false
+}
